@@ -219,7 +219,8 @@ func GetChallenges(cd *Common, p *ProofWithPIs, vk *VerifierOnly, piHash [4]F) *
 	}
 	c.Observe(p.Proof.OpeningProof.PowWitness)
 	ch.PowResponse = c.Get()
-	lde := uint64(1) << (cd.FriParams.DegreeBits + cd.FriParams.Config.RateBits)
+	// plonky2 passes common_data.config.fri_config (not fri_params.config) to fri_challenges
+	lde := uint64(1) << (cd.FriParams.DegreeBits + cd.Config.FriConfig.RateBits)
 	for i := uint64(0); i < cd.Config.FriConfig.NumQueryRounds; i++ {
 		ch.QueryIndices = append(ch.QueryIndices, c.Get()%lde)
 	}
